@@ -44,7 +44,7 @@ ASSUMPTIONS = [
 REACH = {t: ["versions_11", "nv3_present", "nv3_absent", "link_keys_written", "children_written", "hashed_present",
              "hashed_absent", "tc_address_unknown", "eui64_rewritten", "eui64_not_writable", "start_blank",
              "start_existing", "frame_counter_checked", "children_checked", "security_state_decoded",
-             "link_key_refused_midway", "zero_frame_counter_over_existing_network"]
+             "link_key_refused_midway", "zero_frame_counter_over_existing_network", "boundary_key_values"]
          for t in ("quick", "thorough")}
 SHARD_TIMEOUT = {"quick": 900, "thorough": 3600}
 WELL_KNOWN = b"ZigBeeAlliance09"
@@ -97,8 +97,11 @@ def run_shard(desc) -> Acc:
         tc_key = WELL_KNOWN if V > 4 else rnd.randbytes(16)
         E = lambda b: zt.EUI64.deserialize(bytes(b))[0]  # noqa: E731
         K = lambda b: zt.KeyData.deserialize(bytes(b))[0]  # noqa: E731
-        nwk_key = rnd.randbytes(16)
-        link_keys = [(rnd.randbytes(16), bytes([0xD0 + i]) + rnd.randbytes(7)) for i in range(nkeys)]
+        special_keys = [bytes(16), b"\xff" * 16, bytes(range(16)), WELL_KNOWN]
+        nwk_key = rnd.choice([rnd.randbytes(16)] * 3 + special_keys[:3])
+        link_keys = [(rnd.choice([rnd.randbytes(16)] * 4 + special_keys), bytes([0xD0 + i]) + rnd.randbytes(7)) for i in range(nkeys)]
+        if nwk_key in special_keys or any(k_ in special_keys for k_, _ in link_keys):
+            acc.hit("boundary_key_values")
         refused = None
         if nkeys >= 2 and rnd.random() < 0.4:
             # the NCP refuses one link key that is not the last one (whatever its reason): the
@@ -107,9 +110,10 @@ def run_shard(desc) -> Acc:
             net.refuse_partners[refused] = rnd.choice(["invalid_call", "fatal", "bad_argument"])
         children = [bytes([0xE0 + i]) + rnd.randbytes(7) for i in range(nchild)]
         child_addr = {c: rnd.randrange(1, 0xFFF0) for i, c in enumerate(children) if i % 3 != 2}
-        w = dict(pan_id=rnd.randrange(1, 0xFFFE), ext=rnd.randbytes(8), channel=rnd.randrange(11, 27),
-                 mask=rnd.choice([0x07FFF800, 1 << 15, (1 << 11) | (1 << 25)]), update_id=rnd.randrange(256),
-                 nwk_key=nwk_key, nwk_seq=rnd.randrange(256),
+        w = dict(pan_id=rnd.choice([1, 0xFFFE - 1, 0x0000, rnd.randrange(1, 0xFFFE), rnd.randrange(1, 0xFFFE)]),
+                 ext=rnd.choice([rnd.randbytes(8), rnd.randbytes(8), bytes(8), bytes([1]) + bytes(7)]), channel=rnd.randrange(11, 27),
+                 mask=rnd.choice([0x07FFF800, 1 << 15, (1 << 11) | (1 << 25), 1 << 26, 1 << 11]), update_id=rnd.choice([0, 255, rnd.randrange(256)]),
+                 nwk_key=nwk_key, nwk_seq=rnd.choice([0, 255, rnd.randrange(256)]),
                  nwk_fc=rnd.choice([0, 0, 1, 0xFFFFFFFF, rnd.getrandbits(32), rnd.getrandbits(32)]),
                  tc_fc=rnd.choice([0, rnd.getrandbits(32)]))
         ni = zigpy.state.NetworkInfo(
